@@ -883,8 +883,8 @@ class Flattener(object):
             return make(value)
         if isinstance(s, ast.Return) and isinstance(s.value, (ast.IfExp, ast.BoolOp)):
             return split(s.value, lambda v: [ast.copy_location(ast.Return(value=v), s)])
-        if isinstance(s, ast.Assign) and len(s.targets) == 1 and isinstance(s.targets[0], ast.Name) and \
-                isinstance(s.value, ast.IfExp):
+        if isinstance(s, ast.Assign) and len(s.targets) == 1 and isinstance(s.value, ast.IfExp) and \
+                (isinstance(s.targets[0], ast.Name) or (isinstance(s.targets[0], ast.Attribute) and isinstance(s.targets[0].value, ast.Name))):
             tgt = s.targets[0]
             return split(s.value, lambda v: [ast.copy_location(ast.Assign(targets=[clone(tgt)], value=v), s)])
         # x = next((e for t in it if c), default)   ==>   x = default; for t in it: if c: x = e; break
